@@ -42,6 +42,7 @@ func runC19(c *Ctx) {
 	ruleE7(c)
 	ruleS4(c, "S4")
 	ruleE8(c)
+	ruleE9(c, "E9")
 }
 
 // ruleE8: the message on stderr is written by cobra when RunE returns an
